@@ -3,8 +3,9 @@
    Executable definitions only; proofs are in Proofs/C19_merge.v.
 
    Values, not objects: a Griffe object is a [tree]; mutation is state passing.  An [Al] is an alias whose
-   target is NOT loaded (the only thing merger.py can observe of it is Kind.ALIAS / AliasResolutionError);
-   aliases whose target is loaded are outside this model (merger.py then works on the target object). *)
+   target is NOT loaded (the only thing merger.py can observe of it is Kind.ALIAS / AliasResolutionError).
+   An [AlTo] is an alias whose final target is loaded: it carries the current value of that target object, and
+   merger.py, working through the alias proxies, mutates the target (the value is written back in place). *)
 From Coq Require Import List ZArith String Bool Arith.
 From Verif Require Import Lib.Sexp.
 Import ListNotations.
@@ -33,7 +34,13 @@ Record node := mkNode {
 
 Inductive tree :=
 | Obj (d : node) (ms : list (string * tree))
-| Al (target : string) (rt : bool).
+| Al (target : string) (rt : bool)
+| AlTo (target : string) (rt : bool) (tgt : tree).
+
+(* Alias.final_target, and writing a new value of the final target back through the chain *)
+Fixpoint final (t : tree) : tree := match t with AlTo _ _ x => final x | _ => t end.
+Fixpoint retarget (t x' : tree) : tree := match t with AlTo tg rt x => AlTo tg rt (retarget x x') | _ => x' end.
+Definition is_alto (t : tree) : bool := match t with AlTo _ _ _ => true | _ => false end.
 
 Definition with_doc (d : node) (x : option string) := mkNode (nkind d) x (nparams d) (nret d) (nov d) (nann d) (nrt d) (nimp d).
 Definition with_params (d : node) x := mkNode (nkind d) (ndoc d) x (nret d) (nov d) (nann d) (nrt d) (nimp d).
@@ -95,9 +102,9 @@ Definition update_imports (o s : list (string * string)) : list (string * string
    Module loses its buffer dict, an Attribute grows an attribute); on an alias whose target is not loaded the
    property setter goes through final_target and raises AliasResolutionError. *)
 Definition set_ov (t : tree) (ovs : list string) : result tree :=
-  match t with
-  | Obj d ms => Ok (Obj (with_ov d (OvList ovs)) ms)
-  | Al _ _ => Err EAlias
+  match final t with
+  | Obj d ms => Ok (retarget t (Obj (with_ov d (OvList ovs)) ms))
+  | _ => Err EAlias
   end.
 
 (* stubs.overloads.items() *)
@@ -129,13 +136,16 @@ Fixpoint apply_buffer (buf : list (string * list string)) (ms : list (string * t
   end.
 
 Definition set_rt (b : bool) (t : tree) : tree :=
-  match t with Obj d ms => Obj (with_rt d b) ms | Al tg _ => Al tg b end.
+  match t with Obj d ms => Obj (with_rt d b) ms | Al tg _ => Al tg b | AlTo tg _ x => AlTo tg b x end.
 
 Definition is_container (k : kind) : bool := match k with KMod | KCls => true | _ => false end.
 
 Section Members.
-  (* the recursive call _merge_module_stubs / _merge_class_stubs (stub member first) *)
-  Variable rec : tree -> tree -> outcome.
+  (* the recursive call _merge_module_stubs / _merge_class_stubs (via-alias flag, stub member, target object) *)
+  Variable rec : bool -> tree -> tree -> outcome.
+  (* obj is reached through an alias: obj.members is then a dict built afresh on every access
+     (models.py Alias.members), so obj.set_member(name, stub_member) adds nothing *)
+  Variable via : bool.
 
   (* the loop of _merge_stubs_members over stubs.members.items(); acc = obj.members *)
   Fixpoint merge_members (sl : list (string * tree)) (acc : list (string * tree)) : list (string * tree) * option err :=
@@ -143,34 +153,35 @@ Section Members.
     | [] => (acc, None)
     | (n, sm) :: r =>
         match lookup n acc with
-        | None => merge_members r (acc ++ [(n, set_rt false sm)])     (* stub_member.runtime = False; obj.set_member *)
+        | None => if via then merge_members r acc
+                  else merge_members r (acc ++ [(n, set_rt false sm)])   (* stub_member.runtime = False; obj.set_member *)
         | Some om =>
             match sm with
-            | Al _ _ => merge_members r acc                            (* if stub_member.is_alias: continue *)
             | Obj smd _ =>
-                match om with
-                | Al _ _ => merge_members r acc                        (* Alias.kind = Kind.ALIAS: differs from every object kind *)
+                match final om with                                      (* obj_member.kind goes through final_target *)
                 | Obj omd omms =>
                     if kind_eqb (nkind omd) (nkind smd) then
                       match nkind omd with
-                      | KFun => merge_members r (assign n (Obj (merge_fun omd smd) omms) acc)
-                      | KAttr => merge_members r (assign n (Obj (merge_attr omd smd) omms) acc)
+                      | KFun => merge_members r (assign n (retarget om (Obj (merge_fun omd smd) omms)) acc)
+                      | KAttr => merge_members r (assign n (retarget om (Obj (merge_attr omd smd) omms)) acc)
                       | KMod | KCls =>
-                          match rec sm om with
-                          | Done om' => merge_members r (assign n om' acc)
-                          | Raised EAlias p => merge_members r (assign n p acc)   (* with suppress(AliasResolutionError, CyclicAliasError) *)
-                          | Raised e p => (assign n p acc, Some e)
+                          match rec (via || is_alto om) sm (Obj omd omms) with
+                          | Done t' => merge_members r (assign n (retarget om t') acc)
+                          | Raised EAlias p => merge_members r (assign n (retarget om p) acc)   (* with suppress(AliasResolutionError, CyclicAliasError) *)
+                          | Raised e p => (assign n (retarget om p) acc, Some e)
                           end
                       end
-                    else merge_members r acc                           (* kind mismatch: debug log only *)
+                    else merge_members r acc                             (* kind mismatch: debug log only *)
+                | _ => merge_members r acc                               (* Kind.ALIAS differs from every object kind *)
                 end
+            | _ => merge_members r acc                                   (* if stub_member.is_alias: continue *)
             end
         end
     end.
 End Members.
 
 (* _merge_module_stubs(o, s) / _merge_class_stubs(o, s): docstring, overloads, members (imports first) *)
-Fixpoint merge_obj (s o : tree) {struct s} : outcome :=
+Fixpoint merge_obj (via : bool) (s o : tree) {struct s} : outcome :=
   match s, o with
   | Obj sd sms, Obj od oms =>
       let od1 := with_doc od (merge_doc (ndoc od) (ndoc sd)) in
@@ -181,7 +192,7 @@ Fixpoint merge_obj (s o : tree) {struct s} : outcome :=
           | (oms1, Some e) => Raised e (Obj od1 oms1)
           | (oms1, None) =>
               let od2 := with_imp od1 (update_imports (nimp od) (nimp sd)) in
-              match merge_members merge_obj sms oms1 with
+              match merge_members merge_obj via sms oms1 with
               | (oms2, Some e) => Raised e (Obj od2 oms2)
               | (oms2, None) => Done (Obj od2 oms2)
               end
@@ -201,7 +212,7 @@ Definition merge_stubs (m1 m2 : fmod) : result fmod :=
   match roles m1 m2 with
   | None => Err EValue
   | Some (st, md) =>
-      match merge_obj (body st) (body md) with
+      match merge_obj false (body st) (body md) with
       | Done t => Ok (mkF (is_pyi md) t)
       | Raised e _ => Err e
       end
@@ -216,9 +227,9 @@ Fixpoint buffer_rest (buf : list (string * list string)) (oms : list (string * t
   | (fn, ovs) :: r =>
       match ovs with
       | [] => buffer_rest r oms
-      | _ :: _ => match lookup fn oms with
-                  | Some (Al _ _) => buf
-                  | _ => buffer_rest r oms
+      | _ :: _ => match option_map final (lookup fn oms) with
+                  | Some (Obj _ _) | None => buffer_rest r oms
+                  | Some _ => buf
                   end
       end
   end.
@@ -232,9 +243,9 @@ Section Residual.
         (n, match lookup n oms with
             | None => set_rt false sm
             | Some om =>
-                match sm, om with
-                | Obj smd _, Obj omd _ =>
-                    if kind_eqb (nkind omd) (nkind smd) && is_container (nkind omd) then rec sm om else sm
+                match sm, final om with
+                | Obj smd _, Obj omd omms =>
+                    if kind_eqb (nkind omd) (nkind smd) && is_container (nkind omd) then rec sm (Obj omd omms) else sm
                 | _, _ => sm
                 end
             end) :: residual_members r oms
@@ -264,7 +275,7 @@ Definition set_member_module (member value : fmod) : result fmod :=
   match roles member value with
   | None => Ok value
   | Some (st, md) =>
-      match merge_obj (body st) (body md) with
+      match merge_obj false (body st) (body md) with
       | Done t => Ok (mkF (is_pyi md) t)
       | Raised EAlias p => Ok (if is_pyi member then mkF (is_pyi value) p else value)
       | Raised e _ => Err e
@@ -282,56 +293,68 @@ Definition add_members (t : tree) (subs : list (string * tree)) : tree :=
   end.
 
 Definition load_package (top stubs_init : tree) (subs : list (string * tree)) : result tree :=
-  match merge_obj stubs_init top with
+  match merge_obj false stubs_init top with
   | Done top1 =>
-      match merge_obj (add_members (residual stubs_init top) subs) top1 with
+      match merge_obj false (add_members (residual stubs_init top) subs) top1 with
       | Done t => Ok t
       | Raised e _ => Err e
       end
   | Raised EAlias p =>      (* suppressed the first time; the unguarded second merge meets the same entry *)
-      match merge_obj (add_members (residual stubs_init top) subs) p with
+      match merge_obj false (add_members (residual stubs_init top) subs) p with
       | Done t => Ok t
       | Raised e _ => Err e
       end
   | Raised e _ => Err e
   end.
 
-(* ---- known gaps (decidable).  At some scope reached by the merge a non-empty buffer entry of the stubs names a
-   member of the runtime scope that is  F1: an alias (target not loaded)   F2: an object that is not a function. ---- *)
+(* ---- known gaps (decidable).  At some scope reached by the merge
+   F1: a non-empty buffer entry of the stubs names a runtime member that is an alias whose target is not loaded
+   F2: ... names a runtime member that is (or is an alias to) an object that is not a function
+   F3: the runtime scope is reached through an alias and the stubs have a member it lacks ---- *)
 Definition hits (p : tree -> bool) (buf : list (string * list string)) (oms : list (string * tree)) : bool :=
   existsb (fun e => match snd e with
                     | [] => false
                     | _ :: _ => match lookup (fst e) oms with Some m => p m | None => false end
                     end) buf.
 
-Definition is_alias (t : tree) : bool := match t with Al _ _ => true | Obj _ _ => false end.
+Definition is_alias (t : tree) : bool := match t with Al _ _ => true | _ => false end.
+Definition unresolvable (t : tree) : bool := is_alias (final t).
 Definition is_nonfun_obj (t : tree) : bool :=
-  match t with Obj d _ => negb (kind_eqb (nkind d) KFun) | Al _ _ => false end.
+  match final t with Obj d _ => negb (kind_eqb (nkind d) KFun) | _ => false end.
 Definition buf_of (d : node) : list (string * list string) := match nov d with OvDict b => b | _ => [] end.
 
 Section Gap.
-  Variable p : tree -> bool.
-  Variable rec : tree -> tree -> bool.
+  Variable rec : bool -> tree -> tree -> bool.
+  Variable via : bool.
   Fixpoint gap_members (sl : list (string * tree)) (oms : list (string * tree)) : bool :=
     match sl with
     | [] => false
     | (n, sm) :: r =>
         (match lookup n oms, sm with
-         | Some (Obj omd omms), Obj smd _ =>
-             kind_eqb (nkind omd) (nkind smd) && is_container (nkind omd) && rec sm (Obj omd omms)
+         | Some om, Obj smd _ =>
+             match final om with
+             | Obj omd omms =>
+                 kind_eqb (nkind omd) (nkind smd) && is_container (nkind omd) && rec (via || is_alto om) sm (Obj omd omms)
+             | _ => false
+             end
          | _, _ => false
          end) || gap_members r oms
     end.
 End Gap.
 
-Fixpoint gap (p : tree -> bool) (s o : tree) {struct s} : bool :=
+(* [here via buf sms oms]: is the gap present in this very scope *)
+Fixpoint gap (here : bool -> list (string * list string) -> list (string * tree) -> list (string * tree) -> bool)
+             (via : bool) (s o : tree) {struct s} : bool :=
   match s, o with
-  | Obj sd sms, Obj od oms => hits p (buf_of sd) oms || gap_members (gap p) sms oms
+  | Obj sd sms, Obj od oms => here via (buf_of sd) sms oms || gap_members (gap here) via sms oms
   | _, _ => false
   end.
 
-Definition known_gap_F1 (s o : tree) : bool := gap is_alias s o.
-Definition known_gap_F2 (s o : tree) : bool := gap is_nonfun_obj s o.
+Definition known_gap_F1 (s o : tree) : bool := gap (fun _ buf _ oms => hits unresolvable buf oms) false s o.
+Definition known_gap_F2 (s o : tree) : bool := gap (fun _ buf _ oms => hits is_nonfun_obj buf oms) false s o.
+Definition lacks (sms oms : list (string * tree)) : bool :=
+  existsb (fun p => match lookup (fst p) oms with None => true | Some _ => false end) sms.
+Definition known_gap_F3 (s o : tree) : bool := gap (fun via _ sms oms => via && lacks sms oms) false s o.
 
 (* ---- s-expression interface ---- *)
 Definition dec_kind (s : sexp) : option kind :=
@@ -371,6 +394,7 @@ Definition dec_node (k doc ps ret ov ann rt imp : sexp) : option node :=
 Fixpoint dec_tree (s : sexp) : option tree :=
   match s with
   | SList [SStr "alias"; SStr tg; rt] => do rt' <- as_bool rt; Some (Al tg rt')
+  | SList [SStr "alias_to"; SStr tg; rt; t] => do rt' <- as_bool rt; do t' <- dec_tree t; Some (AlTo tg rt' t')
   | SList [SStr "obj"; k; doc; ps; ret; ov; ann; rt; imp; SList mems] =>
       do d <- dec_node k doc ps ret ov ann rt imp;
       do ms <- (fix dec_mems (l : list sexp) : option (list (string * tree)) :=
@@ -393,6 +417,7 @@ Definition enc_node_fields (d : node) : list sexp :=
 Fixpoint enc_tree (t : tree) : sexp :=
   match t with
   | Al tg rt => SList [SStr "alias"; SStr tg; of_bool rt]
+  | AlTo tg rt t' => SList [SStr "alias_to"; SStr tg; of_bool rt; enc_tree t']
   | Obj d ms =>
       SList (SStr "obj" :: enc_node_fields d ++
              [SList ((fix enc_mems (l : list (string * tree)) : list sexp :=
@@ -419,7 +444,7 @@ Definition run_C19 (s : sexp) : sexp :=
   match s with
   | SList [SStr "merge"; st; ob] =>
       match dec_tree st, dec_tree ob with
-      | Some s', Some o' => enc_outcome (merge_obj s' o')
+      | Some s', Some o' => enc_outcome (merge_obj false s' o')
       | _, _ => bad_input
       end
   | SList [SStr "merge_stubs"; a; b] =>
@@ -439,7 +464,7 @@ Definition run_C19 (s : sexp) : sexp :=
       end
   | SList [SStr "gaps"; st; ob] =>
       match dec_tree st, dec_tree ob with
-      | Some s', Some o' => SList [of_bool (known_gap_F1 s' o'); of_bool (known_gap_F2 s' o')]
+      | Some s', Some o' => SList [of_bool (known_gap_F1 s' o'); of_bool (known_gap_F2 s' o'); of_bool (known_gap_F3 s' o')]
       | _, _ => bad_input
       end
   | _ => bad_input
